@@ -91,6 +91,31 @@ CHECKS = {
         note='2 threads x 1-2 calls (quick), 3 threads / 2 calls with bounded switches (thorough); line-level pre-emption with one '
              'pre-emption; races inside a single bytecode or inside C code (lru_cache, re) cannot be forced from Python.',
         technique='TLA+ interleaving model checked by TLC (positive + negative placement); every TLC behaviour replayed as a forced thread schedule on the real code'),
+    'C13': dict(
+        category='model_checking',
+        text='Lang.tla states RFC 4647 extended filtering (five-step algorithm as a recursive operator plus the CSS empty-range and * '
+             'rules) and language determination (nearest lang / xml:lang, content-language pragma, unknown; iframe = document boundary). '
+             'TLC checks design-level laws on the model (case invariance, greedy scan = declarative embedding, wildcard redundancy, '
+             'reflexivity, prefix ranges, * vs empty, inheritance equations) and enumerates all range x tag pairs of subtag length <= 3-4 '
+             'over {de,en,x,latn,*,""} and all determination situations (chains <= 3-4 x 5 attribute states x 5 pragma states x iframe '
+             'position x 4 document modes); every predicted relation is replayed into soupsieve.select; seeded random selects over a larger '
+             'alphabet are recorded from the code and validated by TLC (Trace_Select).',
+        design_ref='§6 C13',
+        note='Bounded: subtag lists <= 4 (B1) / <= 6 (B2), chains <= 4, single-rooted API-built documents, one pragma per document; the '
+             'pragma of a document nested in an iframe is recorded as drift (property does not decide it); Lang.tla trusted as the reading of RFC 4647.',
+        technique='TLA+ transcription of RFC 4647 3.3.2 + determination rules; TLC enumeration replayed into the code; TLC trace validation'),
+    'C19': dict(
+        category='model_checking',
+        text='TextSem.tla defines the text of an element (kind-t nodes only, document-order concatenation, own text as separate nodes, '
+             'iframe cut in HTML/XHTML) and :-soup-contains / -own; TLC checks eight laws of the definition (own => descendant, list = '
+             'disjunction, empty-needle law, set-based = structural recursion ...) and enumerates child rows <= 3-4 over 12 node kinds at '
+             'depth <= 3 in five document flavours with pools of 34-58 selectors in three needle spellings (quotes, escapes); every predicted '
+             'relation is replayed into soupsieve.select/match; the deprecated :contains alias is compared code-vs-code incl. its FutureWarning; '
+             'recorded selects on random trees are validated by TLC (Trace_C19).',
+        design_ref='§6 C19',
+        note='Bounded rows/depth; trees built through the bs4 API; what an HTML iframe element sees of its own content is accepted in both '
+             'readings (drift only); unquoted identifier needles only in the random part.',
+        technique='TLA+ text semantics, TLC enumeration replayed into the code; TLC trace validation of recorded selects'),
 }
 
 PENDING = {}
